@@ -4,18 +4,20 @@ From Wbxml Require Import Model.TablesDefs Model.Tables.
 Import ListNotations.
 Local Open Scope N_scope.
 
-Inductive hw_kind := HInteger | HDateTime | HBase64 | HOther.
+(* HMime / HMimeDm: the SyncML MIME-type rewrite application/vnd.syncml-devinf+wbxml <-> +xml (resp. dmtnds) *)
+Inductive hw_kind := HInteger | HDateTime | HBase64 | HMime | HMimeDm | HOther.
 (* where the typed handling applies: element content under tag (page, token); every opaque attribute value of the
    language (page/token unused); the value of the attribute start (page, token) *)
-Inductive hw_where := HContent | HAttrAny | HAttrDT.
+(* HAttrVal: the value of the attribute start (page, token), other than date-time; HContentAny: the text of every element of the language *)
+Inductive hw_where := HContent | HAttrAny | HAttrDT | HAttrVal | HContentAny.
 
 Record hw := mk_hw { hw_lang : N; hw_place : hw_where; hw_page : N; hw_tok : N; hw_type : hw_kind }.
 Record intended := mk_intended { i_langs : list N; i_place : hw_where; i_type : hw_kind; i_names : list string }.
 
 Definition kind_eqb (a b : hw_kind) : bool :=
-  match a, b with HInteger, HInteger | HDateTime, HDateTime | HBase64, HBase64 | HOther, HOther => true | _, _ => false end.
+  match a, b with HInteger, HInteger | HDateTime, HDateTime | HBase64, HBase64 | HMime, HMime | HMimeDm, HMimeDm | HOther, HOther => true | _, _ => false end.
 Definition where_eqb (a b : hw_where) : bool :=
-  match a, b with HContent, HContent | HAttrAny, HAttrAny | HAttrDT, HAttrDT => true | _, _ => false end.
+  match a, b with HContent, HContent | HAttrAny, HAttrAny | HAttrDT, HAttrDT | HAttrVal, HAttrVal | HContentAny, HContentAny => true | _, _ => false end.
 
 Definition hw_eqb (a b : hw) : bool :=
   (hw_lang a =? hw_lang b) && where_eqb (hw_place a) (hw_place b) && (hw_page a =? hw_page b) && (hw_tok a =? hw_tok b) &&
@@ -28,8 +30,8 @@ Definition hw_row_name (main : list lang) (h : hw) : option string :=
   | Some l =>
     match hw_place h with
     | HContent => match tag_of_token l (hw_page h) (hw_tok h) with Found r => Some (t_name r) | _ => None end
-    | HAttrDT => match attr_of_token l (hw_page h) (hw_tok h) with Found r => Some (a_name r) | _ => None end
-    | HAttrAny => Some EmptyString
+    | HAttrDT | HAttrVal => match attr_of_token l (hw_page h) (hw_tok h) with Found r => Some (a_name r) | _ => None end
+    | HAttrAny | HContentAny => Some EmptyString
     end
   end.
 
@@ -40,26 +42,46 @@ Definition hw_intended (main : list lang) (pins : list intended) (h : hw) : bool
   | None => false
   | Some n =>
     existsb (fun i => existsb (N.eqb (hw_lang h)) (i_langs i) && where_eqb (hw_place h) (i_place i) && kind_eqb (hw_type h) (i_type i) &&
-                      match hw_place h with HAttrAny => true | _ => existsb (String.eqb n) (i_names i) end) pins
+                      match hw_place h with HAttrAny | HContentAny => true | _ => existsb (String.eqb n) (i_names i) end) pins
   end.
 
 (* what the encoder writes typed is decoded with the same type: the same entry is in the parser's list, or the
    parser applies that type to every opaque attribute value of the language *)
+Definition is_mime (k : hw_kind) : bool := match k with HMime | HMimeDm => true | _ => false end.
+
+(* The MIME rewrite is a change of text, not a typed binary form: it is exempt here.  (Recorded fact: the WBXML encoder
+   applies it language-wide — HContentAny — while the XML generator undoes it in <Type> only.) *)
 Definition enc_matched (dec : list hw) (e : hw) : bool :=
+  is_mime (hw_type e) ||
   existsb (hw_eqb e) dec ||
   match hw_place e with
-  | HAttrDT | HAttrAny => existsb (fun d => (hw_lang d =? hw_lang e) && where_eqb (hw_place d) HAttrAny && kind_eqb (hw_type d) (hw_type e)) dec
-  | HContent => false
+  | HAttrDT | HAttrAny | HAttrVal =>
+    existsb (fun d => (hw_lang d =? hw_lang e) && where_eqb (hw_place d) HAttrAny && kind_eqb (hw_type d) (hw_type e)) dec
+  | HContent | HContentAny => false
   end.
 
 (* every pinned name is really singled out (the pinned set is not larger than the code) *)
 Definition pin_realised (main : list lang) (dec : list hw) (i : intended) : bool :=
   forallb (fun lid => match i_place i with
-                      | HAttrAny => existsb (fun d => (hw_lang d =? lid) && where_eqb (hw_place d) HAttrAny && kind_eqb (hw_type d) (i_type i)) dec
+                      | HAttrAny | HContentAny => existsb (fun d => (hw_lang d =? lid) && where_eqb (hw_place d) (i_place i) && kind_eqb (hw_type d) (i_type i)) dec
                       | _ => forallb (fun n => existsb (fun d => (hw_lang d =? lid) && where_eqb (hw_place d) (i_place i) && kind_eqb (hw_type d) (i_type i) &&
                                                         match hw_row_name main d with Some m => String.eqb m n | None => false end) dec) (i_names i)
                       end) (i_langs i).
 
 Definition hardwired_ok (main : list lang) (pins : list intended) (dec enc : list hw) : bool :=
   forallb (hw_intended main pins) dec && forallb (hw_intended main pins) enc &&
-  forallb (enc_matched dec) enc && forallb (pin_realised main dec) pins.
+  forallb (enc_matched dec) enc && forallb (pin_realised main (dec ++ enc)) pins.
+
+(* ---- the table option WBXML_TAG_OPTION_BINARY (0x1): probed on every real tag row.  enc_rows = rows whose text the WBXML
+   encoder writes as OPAQUE, xml_rows = rows whose text the XML generator renders in base64: both are exactly the flagged rows *)
+Definition mem3 (x : N * N * N) (l : list (N * N * N)) : bool :=
+  existsb (fun y => let '(a, b, c) := x in let '(a', b', c') := y in (a =? a') && (b =? b') && (c =? c')) l.
+
+Definition binary_rows_ok (main : list lang) (enc_rows xml_rows : list (N * N * N)) : bool :=
+  forallb (fun l => forallb (fun r =>
+      let flagged := existsb (fun x => (t_page x =? t_page r) && (t_tok x =? t_tok r) && N.testbit (t_opts x) 0) (opt_list (l_tags l)) in
+      Bool.eqb flagged (mem3 (l_id l, t_page r, t_tok r) enc_rows) && Bool.eqb flagged (mem3 (l_id l, t_page r, t_tok r) xml_rows))
+    (opt_list (l_tags l))) main &&
+  forallb (fun x => let '(i, p, t) := x in
+     match get_table main i with Some l => match tag_of_token l p t with Found _ => true | _ => false end | None => false end)
+    (enc_rows ++ xml_rows).
